@@ -7,11 +7,14 @@
    UBFREE sum01 closed01 <pattern> <path>    -> 0/1                            no int64 overflow in the run
    AREA <path>                               -> OK <hex double> | ERR ..       model of Area<int64_t>(Path64)
    AREA2 <path>                              -> exact twice-area (Z)
-   CHECK sum01 closed01 <pattern> <path> tn td <out2> <pts2>
-        -> OK nfar ninside nfail {x y w ins}*(first 5) | ERR ..   (ninside = far points inside some parallelogram)
-        pattern/path in original coordinates, out2 (result paths) and pts2 (sample points) DOUBLED, tolerance
-        tn/td in doubled units; failure = sample point farther than the tolerance from every parallelogram edge
-        where the net winding w of the result is not [ins ? 1 : 0] (ins = strictly inside some parallelogram)
+   CHECK sum01 closed01 <pattern> <path> k tn td <outk> <ptsk>
+        -> OK nfar ninside nfail nx {x y w ins}*(first 5 failures) | ERR ..
+        pattern/path in original coordinates; outk (result paths), ptsk (sample points) and the tolerance tn/td in
+        coordinates SCALED BY k (k = 2: half-integer sample points; k = 2*2^j: dyadic PathD results, exactly);
+        nfar = sample points farther than the tolerance from every parallelogram edge, ninside = those strictly
+        inside some parallelogram, failure = far point where the net winding w of the result is not [ins ? 1 : 0],
+        nx = far points where the cross-product membership test and "some parallelogram has non-zero winding
+        number" disagree (must be 0: consistency of the oracle itself)
    SCALE <scale> <pathD>                     -> OK <path> | UNDEF              Scale.scale_path scale scale
    DESCALE <inv> <paths>                     -> <pathsD>                       Scale.descale_paths inv inv
    POW10 p                                   -> hex double (correctly rounded 10^p), and inv_of of it *)
@@ -50,11 +53,12 @@ let handle t =
       (match areaF p with MOk a -> "OK " ^ show_fl a | MErr e -> show_err e)
   | "AREA2" -> let p = read_path t in string_of_z (area2 p)
   | "CHECK" -> let s = next_bool t in let c = next_bool t in let pat = read_path t in let p = read_path t in
-      let tn = next_z t in let td = next_z t in let out2 = read_paths t in let pts2 = read_path t in
-      (match check_minkowski pat p s c tn td out2 pts2 with
+      let k = next_z t in let tn = next_z t in let td = next_z t in let outk = read_paths t in let ptsk = read_path t in
+      (match check_minkowski pat p s c k tn td outk ptsk with
        | MOk ev ->
            let fails = mink_fails ev in
-           String.concat " " (["OK"; string_of_int (List.length ev); string_of_int (List.length (mink_inside ev)); string_of_int (List.length fails)]
+           String.concat " " (["OK"; string_of_int (List.length ev); string_of_int (List.length (mink_inside ev));
+                               string_of_int (List.length fails); string_of_int (List.length (mink_xcheck pat p s c k ev))]
              @ List.map (fun ((q, w), ins) -> show_pt q ^ " " ^ string_of_z w ^ " " ^ show_bool ins) (take 5 fails))
        | MErr e -> show_err e)
   | "SCALE" -> let s = next_fl t in let p = read_fpath t in
